@@ -101,4 +101,20 @@ PROPS = {
         "assumptions": ["registry restriction through the verif hook is a faithful model of a process that lacks those types"],
         "parts": [rapid("is-transfer", "TestProp", 6000, 100000)],
     },
+    "C13": {
+        "pkg": "c13",
+        "level": "exploration",
+        "level_text": "Generated search with shrinking: trees are constructed around a multi-cause node (library Join, stdlib Join, two-%w Errorf, unregistered "
+                      "and registered user multi types; nil arguments to Join; nested multi nodes; branches that are wrapped chains) and checked against: the tree "
+                      "model for Is/IsAny (self or some branch), a reference As (first match in branch order, same assigned value), Unwrap/UnwrapOnce/UnwrapAll leaf "
+                      "behaviour, Join's argument/nil/text rules, one %+v entry per layer with every branch's text, and shape/text equality after 1-2 hops to knowing "
+                      "and unknowing receivers.",
+        "level_note": "The self-match of a multi node is taken from the C08 model only; unknowing receivers never include the families of the C04 known findings (F14/F15).",
+        "technique": "property-based testing (rapid): constructed multi-cause trees, reference model for Is, differential reference As, round-trip shape oracle",
+        "rule": "rapid-constructed trees: a multi-cause node of a drawn kind with 1-3 generated branches under 0-3 drawn wrappers; receiver drawn from {knowing, all "
+                "families unknown, only the multi-cause families unknown}. Non-trivial = at least one multi-cause node and at least 4 visible layers. Part join-nils "
+                "enumerates Join/JoinWithDepth with 0-6 nil arguments exhaustively. Distinct = hash of the case JSON.",
+        "assumptions": ["the C08 mark model for the self-match of a multi-cause node"],
+        "parts": [rapid("multi-tree", "TestProp", 6000, 100000), plain("join-nils", "TestJoinNils")],
+    },
 }
